@@ -12,6 +12,7 @@ package main
 import (
 	"go/constant"
 	"go/token"
+	"go/types"
 
 	"golang.org/x/tools/go/ssa"
 )
@@ -109,6 +110,13 @@ func stringCompareAtom(cond ssa.Value) (x, y ssa.Value, op token.Token, ok bool)
 	if !isBin {
 		return nil, nil, 0, false
 	}
+	// the direct form a < b / a == b on strings
+	if isStringType(bo.X.Type()) && isStringType(bo.Y.Type()) {
+		switch bo.Op {
+		case token.LSS, token.LEQ, token.GTR, token.GEQ, token.EQL, token.NEQ:
+			return bo.X, bo.Y, bo.Op, true
+		}
+	}
 	match := func(a, b ssa.Value, op token.Token) (ssa.Value, ssa.Value, token.Token, bool) {
 		call, isCall := a.(*ssa.Call)
 		if !isCall {
@@ -147,6 +155,11 @@ func cmpHolds(rel int, op token.Token) bool {
 		return rel != 0
 	}
 	return false
+}
+
+func isStringType(t types.Type) bool {
+	b, ok := t.Underlying().(*types.Basic)
+	return ok && b.Info()&types.IsString != 0
 }
 
 func constString(v ssa.Value) (string, bool) {
